@@ -14,6 +14,7 @@ use tower::{Service, ServiceExt};
 mod certs;
 mod hostile;
 mod routing;
+mod codegen;
 mod rawdial;
 
 fn peer(v: &Value) -> PeerId {
@@ -771,7 +772,7 @@ async fn history(args: &Value) -> Value {
 
 fn main() {
     let args: Vec<String> = std::env::args().collect();
-    let multi = matches!(args.get(1).map(|s| s.as_str()), Some("admission") | Some("default_timeouts") | Some("rpc_pairing") | Some("history") | Some("oversize_confined") | Some("hostile_streams") | Some("network_names") | Some("claimed_name_grid") | Some("stolen_certificate") | Some("busy_node_still_dials") | Some("panicking_handler") | Some("end_to_end_fidelity") | Some("mutual_dial_inflight") | Some("identity_claims_in_headers") | Some("header_only_deadline") | Some("hostile_requests"));
+    let multi = matches!(args.get(1).map(|s| s.as_str()), Some("admission") | Some("default_timeouts") | Some("rpc_pairing") | Some("history") | Some("oversize_confined") | Some("hostile_streams") | Some("network_names") | Some("claimed_name_grid") | Some("stolen_certificate") | Some("typed_rpc_roundtrip") | Some("busy_node_still_dials") | Some("panicking_handler") | Some("end_to_end_fidelity") | Some("mutual_dial_inflight") | Some("identity_claims_in_headers") | Some("header_only_deadline") | Some("hostile_requests"));
     let rt = if multi {
         tokio::runtime::Builder::new_multi_thread().worker_threads(2).enable_all().build().unwrap()
     } else {
@@ -908,6 +909,8 @@ async fn run(args: Vec<String>) {
         "end_to_end_fidelity" => end_to_end_fidelity(&a).await,
         "panicking_handler" => panicking_handler(&a).await,
         "auth_sweep" => auth_sweep(&a).await,
+        "codegen_routes" => codegen::codegen_routes(&a).await,
+        "typed_rpc_roundtrip" => hostile::typed_rpc_roundtrip(&a).await,
         "busy_node_still_dials" => busy_node_still_dials(&a).await,
         "hostile_streams" => hostile::hostile_streams(&a).await,
         // several messages written in ONE process, one after the other (state kept between calls would show)
